@@ -21,12 +21,12 @@ theorem pLoop_induct_exits {σ : Type} (pd : PassDef σ) (o : Oracle) (clk : Clo
       Q { it with internalError := true } any)
     (hskip : ∀ st it any, P st it any → pd.guard st it = true → deadlinePassed stopAt clk it = false →
       pd.act st it = .skip →
-      (pd.next st none = none → Q it any) ∧ ∀ st', pd.next st none = some st' → P st' it any)
+      (pd.next st it none = none → Q it any) ∧ ∀ st', pd.next st it none = some st' → P st' it any)
     (htry : ∀ st it any c mk, P st it any → pd.guard st it = true → deadlinePassed stopAt clk it = false →
       pd.act st it = .propose c mk →
-      (pd.next st (some (it.try o c mk).1) = none →
+      (pd.next st it (some (it.try o c mk).1) = none →
         Q (it.try o c mk).2 (any || ((it.try o c mk).1 == .accepted))) ∧
-      ∀ st', pd.next st (some (it.try o c mk).1) = some st' →
+      ∀ st', pd.next st it (some (it.try o c mk).1) = some st' →
         P st' (it.try o c mk).2 (any || ((it.try o c mk).1 == .accepted))) :
     ∀ (fuel : Nat) (st : σ) (it : It) (any : Bool), P st it any →
       Q (pLoop pd o clk stopAt fuel st it any).1 (pLoop pd o clk stopAt fuel st it any).2 := by
@@ -47,13 +47,13 @@ theorem pLoop_induct_exits {σ : Type} (pd : PassDef σ) (o : Oracle) (clk : Clo
         | skip =>
           simp only
           obtain ⟨s1, s2⟩ := hskip st it any h hg hd' hact
-          cases hn : pd.next st none with
+          cases hn : pd.next st it none with
           | none => exact s1 hn
           | some st' => exact ih st' it any (s2 st' hn)
         | propose c mk =>
           simp only
           obtain ⟨t1, t2⟩ := htry st it any c mk h hg hd' hact
-          cases hn : pd.next st (some (it.try o c mk).1) with
+          cases hn : pd.next st it (some (it.try o c mk).1) with
           | none => exact t1 hn
           | some st' => exact ih st' _ _ (t2 st' hn)
     · have hg' : pd.guard st it = false := by simpa using hg
@@ -68,11 +68,11 @@ theorem pLoop_induct {σ : Type} (pd : PassDef σ) (o : Oracle) (clk : Clock) (s
     (hfail : ∀ st it any, P st it any → pd.guard st it = true → pd.act st it = .fail →
       Q { it with internalError := true } any)
     (hskip : ∀ st it any st', P st it any → pd.guard st it = true → deadlinePassed stopAt clk it = false →
-      pd.act st it = .skip → pd.next st none = some st' → P st' it any)
+      pd.act st it = .skip → pd.next st it none = some st' → P st' it any)
     (htry : ∀ st it any c mk, P st it any → pd.guard st it = true → deadlinePassed stopAt clk it = false →
       pd.act st it = .propose c mk →
       Q (it.try o c mk).2 (any || ((it.try o c mk).1 == .accepted)) ∧
-      ∀ st', pd.next st (some (it.try o c mk).1) = some st' →
+      ∀ st', pd.next st it (some (it.try o c mk).1) = some st' →
         P st' (it.try o c mk).2 (any || ((it.try o c mk).1 == .accepted))) :
     ∀ (fuel : Nat) (st : σ) (it : It) (any : Bool), P st it any →
       Q (pLoop pd o clk stopAt fuel st it any).1 (pLoop pd o clk stopAt fuel st it any).2 :=
@@ -88,7 +88,7 @@ a failing `assert`, and a measure `mu` strictly decreases with every `next`, the
 fuel are enough, no flag is raised, and the pass runs at most `mu + 1` tests. -/
 theorem pLoop_bound {σ : Type} (pd : PassDef σ) (o : Oracle) (clk : Clock) (stopAt : Option Nat)
     (I : σ → Prop) (mu : σ → Nat)
-    (hnext : ∀ st r st', I st → pd.next st r = some st' → I st' ∧ mu st' < mu st)
+    (hnext : ∀ st it r st', I st → pd.next st it r = some st' → I st' ∧ mu st' < mu st)
     (hnofail : ∀ st it, I st → pd.guard st it = true → pd.act st it ≠ .fail) :
     ∀ (fuel : Nat) (st : σ) (it : It) (any : Bool), I st → mu st < fuel →
       (pLoop pd o clk stopAt fuel st it any).1.outOfFuel = it.outOfFuel ∧
@@ -111,11 +111,11 @@ theorem pLoop_bound {σ : Type} (pd : PassDef σ) (o : Oracle) (clk : Clock) (st
         | fail => exact absurd hact (hnofail st it hI hg)
         | skip =>
           simp only
-          cases hn : pd.next st none with
+          cases hn : pd.next st it none with
           | none => exact ⟨rfl, rfl, rfl, by dsimp only; omega⟩
           | some st' =>
             dsimp only
-            obtain ⟨i1, i2⟩ := hnext st none st' hI hn
+            obtain ⟨i1, i2⟩ := hnext st it none st' hI hn
             obtain ⟨b1, b2, b3, b4⟩ := ih st' it any i1 (by omega)
             exact ⟨b1, b2, b3, by omega⟩
         | propose c mk =>
@@ -123,11 +123,11 @@ theorem pLoop_bound {σ : Type} (pd : PassDef σ) (o : Oracle) (clk : Clock) (st
           obtain ⟨f1, f2, f3, -⟩ := try_flags it o c mk
           have hnt : (it.try o c mk).2.nTests ≤ it.nTests + 1 := by
             rcases try_spec it o c mk with ⟨-, -, -, e, -⟩ | ⟨-, -, -, -, e, -⟩ | ⟨-, -, -, -, e, -⟩ <;> omega
-          cases hn : pd.next st (some (it.try o c mk).1) with
+          cases hn : pd.next st it (some (it.try o c mk).1) with
           | none => exact ⟨f1, f2, f3, by dsimp only; omega⟩
           | some st' =>
             dsimp only
-            obtain ⟨i1, i2⟩ := hnext st _ st' hI hn
+            obtain ⟨i1, i2⟩ := hnext st it _ st' hI hn
             obtain ⟨b1, b2, b3, b4⟩ := ih st' (it.try o c mk).2 (any || ((it.try o c mk).1 == .accepted)) i1 (by omega)
             exact ⟨by rw [b1, f1], by rw [b2, f2], by rw [b3, f3], by omega⟩
     · have hg' : pd.guard st it = false := by simpa using hg
